@@ -78,7 +78,7 @@ def classify(name, desc, job):
     if cls == 'overflow' and re.search(r'float to (signed|unsigned) integer type conversion', desc):
         # replaced by the renderer's exact range assertion (CBMC's is off by one at -2^63)
         return 'ignored:float-conversion', desc, []
-    if cls == 'overflow' and re.search(r'(signed|unsigned) to (signed|unsigned) type conversion', desc):
+    if cls == 'overflow' and re.search(r'overflow on (signed|unsigned) (to (signed|unsigned) )?type conversion', desc):
         # integer <-> integer conversions are modulo 2^N with GCC (implementation-defined, never UB)
         return 'ignored:int-conversion', desc, []
     if name.startswith('modeb_harness.'):
